@@ -73,6 +73,43 @@ MulOvf(n, a, b) ==
        \/ SDiv(p, b) # a
 MinOf(n) == Canon(n, Shl(One, WidthOf(n) - 1))
 
+(* ---------------- floating types, restricted to the values this model can treat exactly ---------------- *)
+(* A value of type float/double is modelled only when it is an INTEGER representable in the format: [neg, mag] with mag a  *)
+(* 64-bit magnitude whose significant bits (between its highest and lowest set bit) fit the format's precision (24 / 53).   *)
+(* Every operation whose exact result is not such a value yields Bad("inexact") and the program is discarded: rounding is   *)
+(* outside the model (DESIGN.md section 6).                                                                                *)
+IsFlt(t) == t.k = "f"
+IsArith(t) == IsInt(t) \/ IsFlt(t)
+Prec(n) == IF n = "float" THEN 24 ELSE 53
+RECURSIVE TzFrom(_, _), TopFrom(_, _)
+TzFrom(m, k) == IF k >= 64 THEN 64 ELSE IF BitAt(m, k) = 1 THEN k ELSE TzFrom(m, k + 1)     \* index of lowest set bit
+TopFrom(m, k) == IF k < 0 THEN -1 ELSE IF BitAt(m, k) = 1 THEN k ELSE TopFrom(m, k - 1)     \* index of highest set bit
+Representable(mag, n) == IsZero(mag) \/ (TopFrom(mag, 63) - TzFrom(mag, 0) + 1 <= Prec(n))
+FV(neg, mag) == [neg |-> neg /\ ~IsZero(mag), mag |-> mag]
+FZero == FV(FALSE, Zero)
+FOk(n, f) == IF Representable(f.mag, n) THEN [ok |-> TRUE, t |-> [k |-> "f", n |-> n], v |-> f, bw |-> 0] ELSE [ok |-> FALSE, why |-> "inexact"]
+FAdd(a, b) ==       \* exact sum of two integral values, or overflow of the 64-bit magnitude
+  IF a.neg = b.neg THEN (LET m == Add(a.mag, b.mag) IN IF ULt(m, a.mag) THEN [ok |-> FALSE] ELSE [ok |-> TRUE, f |-> FV(a.neg, m)])
+  ELSE IF ULt(a.mag, b.mag) THEN [ok |-> TRUE, f |-> FV(b.neg, Sub(b.mag, a.mag))]
+  ELSE [ok |-> TRUE, f |-> FV(a.neg, Sub(a.mag, b.mag))]
+FNeg(a) == FV(~a.neg, a.mag)
+FMul(a, b) ==
+  IF IsZero(a.mag) \/ IsZero(b.mag) THEN [ok |-> TRUE, f |-> FZero]
+  ELSE LET p == Mul(a.mag, b.mag) IN IF UDiv(p, b.mag) # a.mag THEN [ok |-> FALSE] ELSE [ok |-> TRUE, f |-> FV(a.neg # b.neg, p)]
+FDiv(a, b) ==       \* only exact quotients
+  IF IsZero(b.mag) THEN [ok |-> FALSE] ELSE IF ~IsZero(URem(a.mag, b.mag)) THEN [ok |-> FALSE]
+  ELSE [ok |-> TRUE, f |-> FV(a.neg # b.neg, UDiv(a.mag, b.mag))]
+FLt(a, b) == IF a.neg # b.neg THEN a.neg ELSE IF a.neg THEN ULt(b.mag, a.mag) ELSE ULt(a.mag, b.mag)
+(* integer (canonical word w of type n) -> float value *)
+IntToF(n, w) == IF Signed(n) /\ SignBit(w) THEN FV(TRUE, Neg(w)) ELSE FV(FALSE, w)
+(* float value -> integer type n (6.3.1.4: undefined if the value cannot be represented) *)
+FToInt(n, f) ==
+  IF n = "bool" THEN [ok |-> TRUE, v |-> IF IsZero(f.mag) THEN Zero ELSE One]
+  ELSE IF f.neg THEN (IF ~Signed(n) THEN [ok |-> FALSE]
+                      ELSE IF ULt(Shl(One, WidthOf(n) - 1), f.mag) THEN [ok |-> FALSE] ELSE [ok |-> TRUE, v |-> Canon(n, Neg(f.mag))])
+  ELSE IF WidthOf(n) = 64 /\ ~Signed(n) THEN [ok |-> TRUE, v |-> f.mag]
+  ELSE IF ULt(f.mag, Shl(One, WidthOf(n) - (IF Signed(n) THEN 1 ELSE 0))) THEN [ok |-> TRUE, v |-> Canon(n, f.mag)] ELSE [ok |-> FALSE]
+
 (* ---------------- values and memory ---------------- *)
 (* scalar int: [v |-> word]; pointer: [obj |-> o, path |-> seq] (obj 0 = null); array: [el |-> seq]; struct: [f |-> record] *)
 Null == [obj |-> 0, path |-> <<>>]
@@ -82,6 +119,7 @@ FieldOf(sid, name) == LET fs == Structs[sid].fields IN fs[CHOOSE j \in 1..Len(fs
 RECURSIVE ZeroOf(_)
 ZeroOf(t) ==
   CASE t.k = "i" -> [v |-> Zero]
+    [] t.k = "f" -> [v |-> FZero]
     [] t.k = "p" -> Null
     [] t.k = "a" -> [el |-> [j \in 1..t.n |-> ZeroOf(t.t)]]
     [] t.k = "s" -> [f |-> [nm \in {Structs[t.id].fields[j].n : j \in 1..Len(Structs[t.id].fields)} |-> ZeroOf(FieldOf(t.id, nm).t)]]
@@ -111,7 +149,7 @@ ShiftOps == {"<<", ">>"}
 CmpOps2 == {"<", "<=", ">", ">=", "==", "!="}
 ToIntSmall(n, w) == IF SignBit(w) THEN -Lo31(Neg(w)) ELSE Lo31(w)    \* |value| < 2^31 assumed (checked by SmallEnough)
 SmallEnough(w) == FitsNat31(w) \/ FitsNat31(Neg(w))
-Truth(r) == IF IsPtr(r.t) THEN r.v.obj # 0 ELSE ~IsZero(r.v)
+Truth(r) == IF IsPtr(r.t) THEN r.v.obj # 0 ELSE IF r.t.k = "f" THEN ~IsZero(r.v.mag) ELSE ~IsZero(r.v)
 BoolW(b) == IF b THEN One ELSE Zero
 
 IntBin(op, n, a, b) ==      \* a, b canonical words of type n (>= int); result RV or Bad
@@ -146,6 +184,10 @@ RECURSIVE TypeOfLV(_)
 RECURSIVE TypeOfE(_)
 TB(t, bw) == [t |-> t, bw |-> bw]
 PromTB(x) == IF IsInt(x.t) THEN IntT(Promote(x.t.n, x.bw)) ELSE x.t
+ArithT(a, b) ==     \* 6.3.1.8 on arithmetic operands a, b given as [t, bw]
+  IF (IsFlt(a.t) /\ a.t.n = "double") \/ (IsFlt(b.t) /\ b.t.n = "double") THEN [k |-> "f", n |-> "double"]
+  ELSE IF IsFlt(a.t) \/ IsFlt(b.t) THEN [k |-> "f", n |-> "float"]
+  ELSE IntT(UAC(PromTB(a).n, PromTB(b).n))
 Decay(t) == IF t.k = "a" THEN [k |-> "p", t |-> t.t] ELSE t
 TypeOfE(e) ==
   CASE e.k = "lit" -> (TB(e.t, 0))
@@ -156,15 +198,16 @@ TypeOfE(e) ==
     [] e.k = "addr" -> (TB([k |-> "p", t |-> TypeOfLV(e.l)], 0))
     [] e.k = "cast" -> (TB(e.t, 0))
     [] e.k = "sizeof" -> (TB(IntT("ulong"), 0))
+    [] e.k = "misalign" -> (TB(IntT("ulong"), 0))
     [] e.k = "clit" -> (TB(e.t, 0))
     [] e.k = "un" -> (IF e.op = "!" THEN TB(TInt, 0) ELSE TB(PromTB(TypeOfE(e.e)), 0))
     [] e.k = "cond" -> (LET a == TypeOfE(e.a)  b == TypeOfE(e.b) IN
-                        IF IsInt(a.t) /\ IsInt(b.t) THEN TB(IntT(UAC(PromTB(a).n, PromTB(b).n)), 0) ELSE TB(a.t, 0))
+                        IF IsArith(a.t) /\ IsArith(b.t) THEN TB(ArithT(a, b), 0) ELSE TB(a.t, 0))
     [] e.k = "bin" -> (LET a == TypeOfE(e.l)  b == TypeOfE(e.r) IN
                        IF e.op \in {"&&", "||", "<", "<=", ">", ">=", "==", "!="} THEN TB(TInt, 0)
                        ELSE IF e.op = "," THEN b
                        ELSE IF e.op \in {"<<", ">>"} THEN TB(PromTB(a), 0)
-                       ELSE IF IsInt(a.t) /\ IsInt(b.t) THEN TB(IntT(UAC(PromTB(a).n, PromTB(b).n)), 0)
+                       ELSE IF IsArith(a.t) /\ IsArith(b.t) THEN TB(ArithT(a, b), 0)
                        ELSE IF IsPtr(a.t) /\ IsPtr(b.t) THEN TB(IntT("long"), 0)
                        ELSE TB(a.t, 0))
     [] OTHER -> (TB(TInt, 0))
@@ -175,8 +218,33 @@ TypeOfLV(e) ==
     [] e.k = "mem" -> (FieldOf(TypeOfLV(e.e).id, e.f).t)
     [] OTHER -> (TInt)
 
+(* value of an lvalue read in an expression: bit-fields promote by width *)
+PromT(r) == IF IsInt(r.t) THEN IntT(Promote(r.t.n, r.bw)) ELSE r.t
+PromV(r) == IF IsInt(r.t) THEN Canon(Promote(r.t.n, r.bw), r.v) ELSE r.v
+
+(* conversion of an rvalue to arithmetic/pointer type t as if by assignment or cast (6.3.1): RV or Bad *)
+ConvTo(t, r) ==
+  IF IsInt(t) /\ IsInt(r.t) THEN RV(t, Conv(t.n, PromV(r)))
+  ELSE IF IsInt(t) /\ IsFlt(r.t) THEN (LET c == FToInt(t.n, r.v) IN IF c.ok THEN RV(t, c.v) ELSE Bad("float-to-int-range"))
+  ELSE IF IsFlt(t) /\ IsInt(r.t) THEN FOk(t.n, IntToF(Promote(r.t.n, r.bw), PromV(r)))
+  ELSE IF IsFlt(t) /\ IsFlt(r.t) THEN FOk(t.n, r.v)
+  ELSE IF IsInt(t) /\ t.n = "bool" /\ IsPtr(r.t) THEN RV(t, BoolW(r.v.obj # 0))
+  ELSE IF t = r.t THEN r
+  ELSE Bad("conversion")
+
+FloatBin(op, l, r) ==     \* arithmetic/comparison with at least one floating operand (usual arithmetic conversions first)
+  LET ft == [k |-> "f", n |-> IF (IsFlt(l.t) /\ l.t.n = "double") \/ (IsFlt(r.t) /\ r.t.n = "double") THEN "double" ELSE "float"]
+      a == ConvTo(ft, l)  b == ConvTo(ft, r) IN
+  IF ~a.ok THEN a ELSE IF ~b.ok THEN b
+  ELSE IF op \in CmpOps2 THEN
+         RV(TInt, BoolW(CASE op = "<" -> FLt(a.v, b.v) [] op = ">" -> FLt(b.v, a.v) [] op = "<=" -> ~FLt(b.v, a.v)
+                          [] op = ">=" -> ~FLt(a.v, b.v) [] op = "==" -> a.v = b.v [] op = "!=" -> a.v # b.v))
+  ELSE LET x == CASE op = "+" -> FAdd(a.v, b.v) [] op = "-" -> FAdd(a.v, FNeg(b.v)) [] op = "*" -> FMul(a.v, b.v)
+                   [] op = "/" -> FDiv(a.v, b.v) [] OTHER -> [ok |-> FALSE] IN
+       IF ~x.ok THEN Bad("inexact") ELSE FOk(ft.n, x.f)
+
 RECURSIVE SizeOfT(_)
-SizeOfT(t) == CASE t.k = "i" -> Size(t.n) [] t.k = "p" -> 8 [] t.k = "a" -> (IF SizeOfT(t.t) < 0 THEN -1 ELSE t.n * SizeOfT(t.t)) [] OTHER -> -1
+SizeOfT(t) == CASE t.k = "i" -> Size(t.n) [] t.k = "f" -> (IF t.n = "float" THEN 4 ELSE 8) [] t.k = "p" -> 8 [] t.k = "a" -> (IF SizeOfT(t.t) < 0 THEN -1 ELSE t.n * SizeOfT(t.t)) [] OTHER -> -1
 RECURSIVE Eval(_), LVal(_), InitVal(_, _)
 (* load through an lvalue, with array-to-pointer decay *)
 LoadLV(lv) ==
@@ -184,7 +252,7 @@ LoadLV(lv) ==
   ELSE IF lv.t.k = "a" THEN RV([k |-> "p", t |-> lv.t.t], [obj |-> lv.obj, path |-> Append(lv.path, 0)])
   ELSE IF lv.obj = 0 \/ lv.obj \notin DOMAIN mem \/ ~mem[lv.obj].live THEN Bad("dead-or-null-object")
   ELSE LET x == GetPath(mem[lv.obj].val, lv.path, 1) IN
-    IF lv.t.k = "i" THEN [ok |-> TRUE, t |-> lv.t, v |-> x.v, bw |-> lv.bw]
+    IF lv.t.k \in {"i", "f"} THEN [ok |-> TRUE, t |-> lv.t, v |-> x.v, bw |-> lv.bw]
     ELSE IF lv.t.k = "p" THEN RV(lv.t, x)
     ELSE [ok |-> TRUE, t |-> lv.t, v |-> x, bw |-> 0]           \* whole struct value
 
@@ -214,10 +282,6 @@ LVal(e) ==
          ELSE LET fd == FieldOf(b.t.id, e.f) IN LV(b.obj, Append(b.path, e.f), fd.t, fd.bw))
     [] OTHER -> ( Bad("not-an-lvalue"))
 
-(* value of an lvalue read in an expression: bit-fields promote by width *)
-PromT(r) == IF IsInt(r.t) THEN IntT(Promote(r.t.n, r.bw)) ELSE r.t
-PromV(r) == IF IsInt(r.t) THEN Canon(Promote(r.t.n, r.bw), r.v) ELSE r.v
-
 Eval(e) ==
   CASE e.k = "lit" -> ( RV(e.t, Canon(e.t.n, e.v)))
     [] e.k \in {"var", "idx", "deref", "mem"} -> ( LoadLV(LVal(e)))
@@ -229,6 +293,7 @@ Eval(e) ==
          LET r == Eval(e.e) IN
          IF ~r.ok THEN r
          ELSE IF IsInt(e.t) /\ IsInt(r.t) THEN RV(e.t, Conv(e.t.n, r.v))
+         ELSE IF IsArith(e.t) /\ IsArith(r.t) THEN ConvTo(e.t, r)
          ELSE IF IsInt(e.t) /\ e.t.n = "bool" /\ IsPtr(r.t) THEN RV(e.t, BoolW(r.v.obj # 0))
          ELSE IF IsPtr(e.t) /\ IsPtr(r.t) /\ e.t = r.t THEN r
          ELSE Bad("unsupported-cast"))
@@ -236,6 +301,7 @@ Eval(e) ==
          LET r == Eval(e.e) IN
          IF ~r.ok THEN r
          ELSE IF e.op = "!" THEN RV(TInt, BoolW(~Truth(r)))
+         ELSE IF IsFlt(r.t) THEN (IF e.op = "-" THEN RV(r.t, FNeg(r.v)) ELSE IF e.op = "+" THEN r ELSE Bad("unary-on-float"))
          ELSE IF ~IsInt(r.t) THEN Bad("unary-on-pointer")
          ELSE LET n == Promote(r.t.n, r.bw)  a == Canon(n, r.v) IN
               CASE e.op = "+" -> RV(IntT(n), a)
@@ -256,12 +322,13 @@ Eval(e) ==
          IF ~c.ok THEN c
          ELSE LET x == Eval(IF Truth(c) THEN e.a ELSE e.b) IN
            IF ~x.ok THEN x
-           ELSE IF IsInt(x.t) THEN     \* result type: UAC of both arms' promoted types (static typing: TypeOfE)
-                  LET n == TypeOfE(e).t.n IN RV(IntT(n), Conv(n, PromV(x)))
+           ELSE IF IsArith(x.t) THEN     \* result type: usual arithmetic conversions of both arms (static typing: TypeOfE)
+                  ConvTo(TypeOfE(e).t, x)
                 ELSE x)
     [] e.k = "bin" -> (
          LET l == Eval(e.l)  r == Eval(e.r) IN
          IF ~l.ok THEN l ELSE IF ~r.ok THEN r
+         ELSE IF IsArith(l.t) /\ IsArith(r.t) /\ (IsFlt(l.t) \/ IsFlt(r.t)) THEN FloatBin(e.op, l, r)
          ELSE IF IsInt(l.t) /\ IsInt(r.t) THEN
            LET ln == Promote(l.t.n, l.bw)  rn == Promote(r.t.n, r.bw)
                la == Canon(ln, l.v)  ra == Canon(rn, r.v) IN
@@ -284,19 +351,25 @@ Eval(e) ==
          ELSE Bad("operand-types"))
     [] e.k = "clit" -> (LET iv == InitVal(e.t, e.init) IN      \* compound literal used as an rvalue (6.5.2.5)
                         IF ~iv.ok THEN iv ELSE IF IsInt(e.t) THEN RV(e.t, iv.val.v) ELSE RV(e.t, iv.val))
+    [] e.k = "misalign" -> (LET lv == LVal(e.l) IN IF ~lv.ok THEN lv ELSE RV(IntT("ulong"), Zero))   \* (unsigned long)&l % its declared alignment: always 0 (6.2.8)
     [] e.k = "sizeof" -> (LET t == TypeOfLV(e.l) IN IF SizeOfT(t) < 0 THEN Bad("sizeof-struct") ELSE RV(IntT("ulong"), W(SizeOfT(t))))
     [] OTHER -> ( Bad("unknown-expression " \o e.k))
 
 (* ---------------- stores ---------------- *)
 (* value to store into an lvalue of type lv.t from an rvalue r (assignment conversion) *)
-StoreVal(lv, r) ==
-  IF IsInt(lv.t) /\ IsInt(r.t) THEN
+StoreVal(lv, r) ==        \* r already converted to lv.t (ConvTo) for floating types
+  IF IsFlt(lv.t) THEN [v |-> r.v]
+  ELSE IF IsInt(lv.t) /\ IsInt(r.t) THEN
     LET c == Conv(lv.t.n, PromV(r)) IN
     [v |-> IF lv.bw > 0 THEN (IF lv.t.n = "bool" THEN c ELSE IF Signed(lv.t.n) THEN SExtBits(c, lv.bw) ELSE TruncBits(c, lv.bw)) ELSE c]
   ELSE IF IsInt(lv.t) /\ lv.t.n = "bool" /\ IsPtr(r.t) THEN [v |-> BoolW(r.v.obj # 0)]
   ELSE r.v
+StoreConv(lv, r) ==      \* [ok, val]: conversion as if by assignment, then the stored representation
+  IF IsArith(lv.t) /\ IsArith(r.t) /\ (IsFlt(lv.t) \/ IsFlt(r.t))
+  THEN (LET c == ConvTo(lv.t, r) IN IF ~c.ok THEN c ELSE [ok |-> TRUE, val |-> StoreVal(lv, c)])
+  ELSE [ok |-> TRUE, val |-> StoreVal(lv, r)]
 DoStore(lv, r) == [mem EXCEPT ![lv.obj].val = SetPath(@, lv.path, 1, StoreVal(lv, r))]
-Assignable(lv, r) == (IsInt(lv.t) /\ (IsInt(r.t) \/ (lv.t.n = "bool" /\ IsPtr(r.t)))) \/ (lv.t = r.t)
+Assignable(lv, r) == (IsArith(lv.t) /\ IsArith(r.t)) \/ (IsInt(lv.t) /\ lv.t.n = "bool" /\ IsPtr(r.t)) \/ (lv.t = r.t)
 
 (* ---------------- the statement machine ---------------- *)
 Top == ck[Len(ck)]
@@ -316,7 +389,7 @@ InitVal(t, init) ==      \* returns [ok, val]
     LET r == Eval(init.e) IN
     IF ~r.ok THEN r
     ELSE IF t.k = "s" THEN [ok |-> TRUE, val |-> r.v]
-    ELSE IF ~Assignable(LV(0, <<>>, t, 0), r) THEN Bad("init-type") ELSE [ok |-> TRUE, val |-> StoreVal(LV(0, <<>>, t, 0), r)]
+    ELSE IF ~Assignable(LV(0, <<>>, t, 0), r) THEN Bad("init-type") ELSE StoreConv(LV(0, <<>>, t, 0), r)
   ELSE IF t.k = "a" THEN
     LET parts == [j \in 1..t.n |-> IF j <= Len(init.list) THEN InitVal(t.t, init.list[j]) ELSE [ok |-> TRUE, val |-> ZeroOf(t.t)]] IN
     IF \E j \in 1..t.n : ~parts[j].ok THEN Bad("init-element") ELSE [ok |-> TRUE, val |-> [el |-> [j \in 1..t.n |-> parts[j].val]]]
@@ -337,14 +410,17 @@ ApplyAsg(op, lv, r, m) ==       \* lv op= r on memory m; returns [ok, t, v, mem]
   IF ~lv.ok THEN lv ELSE IF ~r.ok THEN r
   ELSE IF op = "=" THEN
          IF ~Assignable(lv, r) THEN Bad("assign-types")
-         ELSE LET sv == StoreVal(lv, r) IN
-              [ok |-> TRUE, t |-> lv.t, bw |-> lv.bw, v |-> IF IsInt(lv.t) THEN sv.v ELSE sv,
+         ELSE LET sc == StoreConv(lv, r)  sv == sc.val IN
+              IF ~sc.ok THEN sc ELSE
+              [ok |-> TRUE, t |-> lv.t, bw |-> lv.bw, v |-> IF IsArith(lv.t) THEN sv.v ELSE sv,
                mem |-> [m EXCEPT ![lv.obj].val = SetPath(@, lv.path, 1, sv)]]
   ELSE LET cur == LoadLV(lv) IN
        IF ~cur.ok THEN cur
        ELSE LET bop == CASE op = "+=" -> "+" [] op = "-=" -> "-" [] op = "*=" -> "*" [] op = "/=" -> "/" [] op = "%=" -> "%"
                          [] op = "&=" -> "&" [] op = "|=" -> "|" [] op = "^=" -> "^" [] op = "<<=" -> "<<" [] op = ">>=" -> ">>"
-                res == IF IsInt(cur.t) /\ IsInt(r.t) THEN
+                res == IF IsArith(cur.t) /\ IsArith(r.t) /\ (IsFlt(cur.t) \/ IsFlt(r.t)) THEN
+                         (IF bop \in {"+", "-", "*", "/"} THEN FloatBin(bop, cur, r) ELSE Bad("compound-types"))
+                       ELSE IF IsInt(cur.t) /\ IsInt(r.t) THEN
                          LET ln == Promote(cur.t.n, cur.bw)  rn == Promote(r.t.n, r.bw)
                              la == Canon(ln, cur.v)  ra == Canon(rn, r.v) IN
                          IF bop \in ShiftOps THEN IntShift(bop, ln, la, rn, ra)
@@ -356,8 +432,9 @@ ApplyAsg(op, lv, r, m) ==       \* lv op= r on memory m; returns [ok, t, v, mem]
                          IF j < 0 \/ j > Len(arr.el) THEN Bad("pointer-arith-out-of-bounds") ELSE RV(cur.t, [cur.v EXCEPT !.path[Len(cur.v.path)] = j])
                        ELSE Bad("compound-types")
             IN IF ~res.ok THEN res
-               ELSE LET sv == StoreVal(lv, res) IN
-                    [ok |-> TRUE, t |-> lv.t, bw |-> lv.bw, v |-> IF IsInt(lv.t) THEN sv.v ELSE sv,
+               ELSE LET sc == StoreConv(lv, res)  sv == sc.val IN
+                    IF ~sc.ok THEN sc ELSE
+                    [ok |-> TRUE, t |-> lv.t, bw |-> lv.bw, v |-> IF IsArith(lv.t) THEN sv.v ELSE sv,
                      mem |-> [m EXCEPT ![lv.obj].val = SetPath(@, lv.path, 1, sv)]]
 
 OneOf(t) == IF IsInt(t) THEN RV(TInt, One) ELSE RV(TInt, One)
@@ -507,9 +584,10 @@ SCall ==        \* [l =] f(args);  arguments are pure expressions
   /\ LET g == FuncByName(S.f)
          av == [j \in 1..Len(S.args) |-> Eval(S.args[j])] IN
        IF \E j \in 1..Len(S.args) : ~av[j].ok THEN Fail("argument")
+       ELSE IF \E j \in 1..Len(g.params) : ~StoreConv(LV(0, <<>>, g.params[j].t, 0), av[j]).ok THEN Fail("argument-conversion")
        ELSE IF depth >= 12 THEN Fail("recursion-depth")
        ELSE LET base == Cardinality(DOMAIN mem)
-                objs == [j \in 1..Len(g.params) |-> [val |-> StoreVal(LV(0, <<>>, g.params[j].t, 0), av[j]), live |-> TRUE]] IN
+                objs == [j \in 1..Len(g.params) |-> [val |-> StoreConv(LV(0, <<>>, g.params[j].t, 0), av[j]).val, live |-> TRUE]] IN
             /\ mem' = [o \in (DOMAIN mem) \cup ((base + 1)..(base + Len(g.params))) |-> IF o \in DOMAIN mem THEN mem[o] ELSE objs[o - base]]
             /\ env' = [nm \in (DOMAIN genv) \cup {g.params[j].n : j \in 1..Len(g.params)} |->
                         IF \E j \in 1..Len(g.params) : g.params[j].n = nm
@@ -535,9 +613,11 @@ SReturn ==
          /\ cstatus' = "exit" /\ cret' = Conv("int", PromV(r)) /\ ck' = <<>>
          /\ UNCHANGED <<cpid, genv, env, mem, cout, cfuel, depth>>
        ELSE LET fr == ck[j]
-                sv == StoreVal(LV(0, <<>>, fr.rt, 0), r)
-                rv == IF IsInt(fr.rt) THEN RV(fr.rt, sv.v) ELSE RV(fr.rt, sv) IN
-         IF ~fr.hasl THEN ck' = SubSeq(ck, 1, j - 1) /\ env' = fr.env0 /\ depth' = depth - 1 /\ CTick /\ UNCHANGED <<cpid, genv, mem, cout, cstatus, cret>>
+                sc == StoreConv(LV(0, <<>>, fr.rt, 0), r)
+                sv == sc.val
+                rv == IF IsArith(fr.rt) THEN RV(fr.rt, sv.v) ELSE RV(fr.rt, sv) IN
+         IF ~sc.ok THEN Fail("return-conversion")
+         ELSE IF ~fr.hasl THEN ck' = SubSeq(ck, 1, j - 1) /\ env' = fr.env0 /\ depth' = depth - 1 /\ CTick /\ UNCHANGED <<cpid, genv, mem, cout, cstatus, cret>>
          ELSE \* the assignment of the result happens in the caller's environment
               /\ ck' = Push(SubSeq(ck, 1, j - 1), [k |-> "retasg", l |-> fr.l, t |-> rv.t, v |-> rv.v])
               /\ env' = fr.env0 /\ depth' = depth - 1 /\ CTick /\ UNCHANGED <<cpid, genv, mem, cout, cstatus, cret>>
